@@ -15,7 +15,7 @@ def jOptS : Option Str → Json
   | some s => jS s
 
 def errStr : Err → String
-  | .runtime => "RuntimeError" | .noName => "no-name" | .assertion => "assertion" | .fuel => "model-fuel"
+  | .runtime => "RuntimeError" | .noName => "no-name" | .noMatch => "no-match" | .assertion => "assertion" | .fuel => "model-fuel"
 def gerrStr : GErr → String
   | .noIdentifier => "no-identifier" | .dupLocation => "dup-location" | .dupName => "dup-name"
 
@@ -46,8 +46,12 @@ def handleIds (j : Json) : R Json := do
       | some a => optChars a
       | none => pure none
     return ((← asChars (← idx p 0)), (← asChars (← idx p 1)), acc)) (← fld j "recs")
-  let model := match preProcessIds allowLong inp with
-    | .ok recs => jObj [("recs", jArr (recs.map recToJson))]
+  let limit ← asChars (fldD j "limit" (Json.str ""))
+  let opts : Ids.Options := ⟨boolFD j "reuse" false, boolFD j "skip_san" false, allowLong, limit⟩
+  let model := match preProcess opts inp with
+    | .ok (recs, skips) =>
+      jObj [("recs", jArr (recs.map recToJson)), ("skips", toJson skips),
+            ("answers", toJson ((inp.zip recs).map fun (p, r) => hasName r p.1))]
     | .error e => jObj [("err", Json.str (errStr e))]
   let spec ← specOfImpl allowLong (inp.map (·.1)) (fldD j "impl" Json.null)
   return jObj [("model", model), ("spec", spec), ("scope", toJson true)]
